@@ -295,6 +295,85 @@ def shard(spec):
     return st.to_dict()
 
 
+# --- bulk phase: many degenerate-but-valid inputs through set_mathml + getters, judged only for panic / abort --------------------------------
+def bulk_shard(spec):
+    from . import gen_degen
+    st = core.Stats()
+    rng = random.Random(spec["seed"])
+    deadline = time.time() + spec["time_budget"]
+    cfg_index = spec["cfg"]
+    sess = core.Session(CONFIGS[cfg_index], timeout=30)
+    seen = set()
+    getters = [("get_spoken_text",), ("get_braille", ""), ("get_overview_text",)]
+
+    def dies(tree):
+        with core.Session(CONFIGS[cfg_index], timeout=30) as s2:
+            return s2.batch([("set_mathml", tree.xml())] + getters, timeout=60) is None and isinstance(s2.last_failure, core.DriverDied)
+
+    try:
+        trees = []
+        for _ in range(spec["n"]):
+            g = gen_degen.Degenerate(rng, max_depth=rng.choice([2, 3, 4, 5]), id_policy=rng.choice(["none", "some"]), p_empty=rng.choice([0.05, 0.12, 0.25]), size_cap=rng.choice([12, 30, 70]))
+            trees.append(g.expression())
+        with_getters = spec.get("getters", 0.15)
+        for off in range(0, len(trees), 40):
+            if time.time() > deadline:
+                st.count("stopped_by_time_budget")
+                break
+            chunk = trees[off:off + 40]
+            ops, owner = [], []
+            for i, t in enumerate(chunk):
+                ops.append(("set_mathml", t.xml()))
+                owner.append(i)
+                if rng.random() < with_getters:
+                    for gq in getters:
+                        ops.append(gq)
+                        owner.append(i)
+            res = sess.batch(ops, timeout=120)
+            if res is None:
+                # find the culprit one expression at a time
+                for t in chunk:
+                    r = sess.batch([("set_mathml", t.xml())] + getters, timeout=60)
+                    if r is None:
+                        if isinstance(sess.last_failure, core.DriverTimeout):
+                            st.inconclusive += 1
+                            st.notes.append("watchdog in bulk phase: %s" % t.xml()[:300])
+                            continue
+                        st.count("driver_deaths")
+                        how = core.describe_exit(sess.last_failure.returncode)
+                        if ("abort", how) in seen:
+                            st.violations.append(core.violation("abort", "abort | %s | set_mathml+getters | degenerate" % how, {"cfg": cfg_index, "kind": "bulk", "ops": [["set_mathml", t.xml()]] + [list(g_) for g_ in getters]}, "(same signature, not minimised)"))
+                            continue
+                        seen.add(("abort", how))
+                        small = shrink.shrink_tree(t, dies, budget=120)
+                        st.violations.append(core.violation("abort", "abort | %s | set_mathml+getters | degenerate" % how,
+                                                            {"cfg": cfg_index, "kind": "bulk", "ops": [["set_mathml", small.xml()]] + [list(g_) for g_ in getters]},
+                                                            "driver died (%s); minimal input %s" % (how, small.xml()[:600])))
+                continue
+            for (op, r, i) in zip(ops, res, owner):
+                st.evaluations += 1
+                st.count("result_" + r["r"])
+                if op[0] == "set_mathml":
+                    st.nontrivial.add(core.h16(op[1]))
+                if r["r"] == "panic":
+                    st.count("raw_panics")
+                    sig = panic_sig(op[0], r["p"])
+                    w = {"cfg": cfg_index, "kind": "bulk", "flavour": "native", "ops": [["set_mathml", chunk[i].xml()]] + ([list(op)] if op[0] != "set_mathml" else [])}
+                    v = core.violation("panic", sig, w, "%s panicked on %s: %s at %s" % (op[0], chunk[i].xml()[:300], r["p"].get("msg", "")[:200], r["p"].get("loc")))
+                    if sig not in seen:
+                        seen.add(sig)
+                        try:
+                            v = minimise_panic(v)
+                        except (core.DriverDied, core.DriverTimeout, core.Inconclusive):
+                            pass
+                    else:
+                        v = dict(v, detail="(same signature, not minimised)")
+                    st.violations.append(v)
+    finally:
+        sess.close()
+    return st.to_dict()
+
+
 # --- fixed obligations: uninitialised use, key codes, nesting depth ----------------------------------------------------------------------
 ALL_CALLS = [("get_version",), ("get_spoken_text",), ("get_overview_text",), ("get_braille", ""), ("get_braille", "x"), ("get_navigation_braille",), ("get_navigation_mathml",),
              ("get_navigation_mathml_id",), ("get_braille_position",), ("get_navigation_node_from_braille_position", 0), ("get_navigation_node_from_braille_position", 7),
@@ -403,7 +482,9 @@ def replay(witness):
             try:
                 r = d.call(*c)
             except core.DriverDied as e:
-                out.append(core.violation("abort", "abort | %s | %s | -" % (core.describe_exit(e.returncode), c[0]), witness, "driver died"))
+                how = core.describe_exit(e.returncode)
+                sig = "abort | %s | set_mathml+getters | degenerate" % how if witness.get("kind") == "bulk" else "abort | %s | %s | -" % (how, c[0])
+                out.append(core.violation("abort", sig, witness, "driver died"))
                 break
             except core.DriverTimeout:
                 break
@@ -460,6 +541,39 @@ def pred_empty_base_before_fence(v, params):
     return False
 
 
+def pred_styled_letters(v, params):
+    """a token with letters in a mathematical typeface (mathvariant attribute or mathematical alphanumeric characters): the braille
+    typeform/capital state machines of the UEB family and the Vietnam roman-numeral code mis-index on them"""
+    tree, xml = _witness_tree(v)
+    if tree is None:
+        return False
+    for n, _ in tree.walk():
+        if n.kids is None and n.tag in ("mi", "mn", "mtext", "mo"):
+            t = n.text or ""
+            if any(0x1D400 <= ord(c) <= 0x1D7FF for c in t):
+                return True
+            if n.attrs.get("mathvariant", "normal") not in ("normal", "") and any(c.isalpha() for c in t):
+                return True
+    return False
+
+
+def pred_empty_like_base_before_fence(v, params):
+    """a script / under-over element whose base renders nothing (empty token, mphantom, mspace, empty row), followed in the same row by a close fence or bar"""
+    from . import canon_run
+    tree, _ = _witness_tree(v)
+    if tree is None:
+        return False
+    for n, _ in tree.walk():
+        kids = n.kids or []
+        for i, k in enumerate(kids):
+            if k.tag in SCRIPTED and k.kids and canon_run.is_empty_like(k.kids[0]):
+                if any(s_.kids is None and s_.tag == "mo" and (s_.text or "") in ")]}⟩⌉⌋|‖" for s_ in kids[i + 1:]):
+                    return True
+    return False
+
+
+core.PREDICATES["c08_styled_letters"] = pred_styled_letters
+core.PREDICATES["c08_empty_like_base_before_fence"] = pred_empty_like_base_before_fence
 core.PREDICATES["c08_internal_attribute"] = pred_internal_attribute
 core.PREDICATES["c08_pseudo_script_row"] = pred_pseudo_script_row
 core.PREDICATES["c08_empty_base_before_fence"] = pred_empty_base_before_fence
@@ -483,6 +597,8 @@ def run(tier, seed):
     budget = 45 if tier == "quick" else 1500
     specs = [{"sessions": make_sessions(core.sub_seed(seed, PROP, i), n_sessions, n_ops), "time_budget": budget, "record": i == 0} for i in range(nsh)]
     results = core.run_shards(shard, specs)
+    bulk = [{"seed": core.sub_seed(seed, PROP, "bulk", i), "cfg": i % len(CONFIGS), "n": 4000 if tier == "quick" else 150000, "time_budget": 35 if tier == "quick" else 900} for i in range(nsh)]
+    results += core.run_shards(bulk_shard, bulk)
     tags = ["mrow", "msqrt", "mfrac", "msup", "mstyle", "mfenced", "menclose", "mpadded", "munder", "mtable"]
     fixed = [{"which": "uninit"}] + [{"which": "keys", "lo": lo, "hi": lo + 64} for lo in range(0, 256, 64)] + [{"which": "depth", "tags": tags[i::3], "cfg": i} for i in range(3)]
     results += core.run_shards(fixed_shard, fixed)
